@@ -18,7 +18,10 @@ func workInput(c *core.Ctx, p *population, idx int, maxLen int) (data []byte, de
 	r := c.Rng(idx)
 	fi = r.Intn(len(p.files))
 	f := p.files[fi]
-	switch k := r.Intn(10); {
+	switch k := r.Intn(12); {
+	case k >= 10:
+		d, ds := gen.Shape(r)
+		return d, ds, -2
 	case k < 2:
 		return f.Data, "file=" + f.Name, fi
 	case k < 6:
@@ -99,6 +102,8 @@ func (e *C02) Run(c *core.Ctx, idx int) {
 	var ents []int
 	if fi >= 0 {
 		ents = append(ents, p.natural[fi]...)
+	} else if fi == -2 {
+		ents = append(ents, EntriesFor(p.entries, gen.KindOf(data))...)
 	} else {
 		for i := range p.entries {
 			ents = append(ents, i)
@@ -216,6 +221,8 @@ func (e *C14) Run(c *core.Ctx, idx int) {
 	var ents []int
 	if fi >= 0 {
 		ents = append(ents, p.natural[fi]...)
+	} else if fi == -2 {
+		ents = append(ents, EntriesFor(p.entries, gen.KindOf(data))...)
 	} else {
 		for i := range p.entries {
 			ents = append(ents, i)
